@@ -573,7 +573,7 @@ status_t WebSocketMessageIOGateway :: CreateReplyFrame(const uint8 * data, uint3
    {
       // Clients must always mask the payloads they send to the server
       const uint32 mask = GetInsecurePseudoRandomNumber32();
-      flat.WriteInt32(mask);
+      flat.WriteBytes(reinterpret_cast<const uint8 *>(&mask), sizeof(mask));  // the key's bytes must go out in the same order that we use them for XOR-ing, below
 
       const uint8 * mask8 = reinterpret_cast<const uint8 *>(&mask);
       MRETURN_ON_ERROR(_scratchMaskBuf.SetNumBytes(numBytes, false));
